@@ -135,6 +135,39 @@ Definition start (s : st) (calls : list ccall) : conf :=
   mkConf (sfs s) (stags s) (sdigs s) false (sctr s)
          (map (fun x => mkThread (call_prog (sfs s) (stags s) x) [] None false) calls).
 
+(* ---------- goroutines that make several calls one after the other ---------- *)
+(* what the callers of a Store really are: each goroutine i has a queue of calls; when its
+   current call has returned (nothing left of its program) a step of i starts the next call,
+   whose program is decided THEN (stat of the target / Exists / Resolve on the current state) *)
+Record gconf := mkG { gc : conf; gq : list (list ccall) }.
+
+Definition idle (t : thread) : bool := match tprog t with [] => true | _ => false end.
+
+Definition gstep (g : gconf) (i : nat) : gconf :=
+  match nth_error (cthreads (gc g)) i, nth_error (gq g) i with
+  | Some t, Some q =>
+      if idle t then
+        match q with
+        | x :: r =>
+            let c := gc g in
+            mkG (mkConf (cfs c) (ctags c) (cdigs c) (clock c) (ccnt c)
+                        (set_nth i (mkThread (call_prog (cfs c) (ctags c) x) [] None false) (cthreads c)))
+                (set_nth i r (gq g))
+        | [] => g
+        end
+      else mkG (sched_step (gc g) i) (gq g)
+  | _, _ => g
+  end.
+
+Definition gsched (g : gconf) (is : list nat) : gconf := fold_left gstep is g.
+
+Definition gstart (s : st) (qs : list (list ccall)) : gconf :=
+  mkG (mkConf (sfs s) (stags s) (sdigs s) false (sctr s) (map (fun _ => mkThread [] [] None false) qs)) qs.
+
+(* every goroutine has made all its calls and the last one has returned *)
+Definition gquietb (g : gconf) : bool :=
+  forallb idle (cthreads (gc g)) && forallb (fun q => match q with [] => true | _ => false end) (gq g).
+
 (* the same scheduler with indexLock ignored (the code without s.indexLock): only used to show
    what the lock is for (C10_conc_refuted_without_indexlock) *)
 Definition sched_step_nolock (c : conf) (i : nat) : conf :=
